@@ -102,7 +102,7 @@ def processLogon (s : Sess) (now seq : Nat) (m : Option LogonIn) : Sess × List 
   match m with
   | none =>
     let (s1, f) := s.send now { msgType := "3", seq := 0, sender := "", target := "", refSeq := some seq, text := some "other" }
-    ({ s1 with nextRecv := s1.nextRecv + 1 }, [f])
+    (s1.received, [f])        -- reject exit: `++_next_receive_seq; update_persist_seqnums()` (persisted since the C16 repair)
   | some m =>
     if s.state == .continuous then                                                -- "Already logged on"
       let (s1, f) := s.send now { msgType := "3", seq := 0, sender := "", target := "", refSeq := some seq, text := some "already" }
